@@ -1,11 +1,373 @@
-//! C18 — check not built yet.
-use mc_core::Args;
-use serde_json::Value;
+//! C18 — a committed migration advances safely and survives persistence.
+//!
+//! Model = the real code. A state is a real `MigrationState` (built with the public `from_parts`
+//! constructors) plus a tiny chain environment; every event is executed on the real
+//! implementation: `advance_migration` against a scripted store written against the public
+//! `PoolMigrationRead`/`PoolMigrationWrite` traits (with the repository's own `MockBackend` run
+//! side by side on the same call), the consumer's documented responses (`store_proved_transaction`,
+//! `mark_broadcast`, `report_broadcast_failure`, `mark_superseded`), chain events (`Mine`, tip
+//! moves, `Rollback` = `truncate_to_height`), `Cancel`, `Supersede`, `ApplySignature`, and the
+//! late landing of an acknowledged broadcast's record. All interleavings are explored breadth
+//! first with state matching on the full Debug rendering of the state and the environment.
+//!
+//! Two passes per (DAG shape, height profile): a DEEP pass from the freshly committed migration
+//! (all transactions Signed, and one with an externally signed first transaction), and a BROAD
+//! pass from every one of the 5^3 per-transaction initial lifecycle states (including combinations
+//! no scenario produces), which brings every phase of the lifecycle within a few events.
+//!
+//! Explored states are saved to and loaded from the real SQLite store, and a shape lattice of
+//! representable states goes through the full persistence protocol (see `c18/persist.rs`).
 
-pub fn replay(_kind: &str, _case: &Value) -> Result<(), String> {
-    Err("C18: check not built".into())
+mod model;
+mod persist;
+mod sr;
+mod store;
+
+use std::cell::RefCell;
+use std::collections::{BTreeMap, HashSet};
+
+use mc_core::explore::{bfs, Limits, Subject};
+use mc_core::{Args, Run, Tier};
+use rayon::prelude::*;
+use serde_json::{json, Value};
+
+use model::{Dag, Model, Op, Opts, Persist, St, Viol, DAGS, PROFILES};
+
+struct PassResult {
+    dag: Dag,
+    profile: u8,
+    pass: &'static str,
+    depth_max: usize,
+    depth: usize,
+    budget: u64,
+    n_inits: usize,
+    states: u64,
+    transitions: u64,
+    per_depth: Vec<u64>,
+    capped: Option<String>,
+    cex: Vec<(String, String, Vec<Op>)>,
+    counters: model::Counters,
+    wall: f64,
 }
 
-pub fn run(_args: &Args) -> i32 {
-    mc_core::machinery_error("C18: check not built")
+#[derive(Clone)]
+struct Pass {
+    name: &'static str,
+    inits: Vec<u8>,
+    /// Largest depth (in events after the initial state) to attempt.
+    depth_max: usize,
+    /// State budget: the pass runs to the largest depth <= depth_max whose complete breadth-first
+    /// search stays below this many states (a deterministic function of the transition system).
+    budget: u64,
+    max_wall: f64,
+}
+
+const PLAIN: Opts = Opts { differential: false, probe: false, persist: Persist::Off, probe_every_height: false };
+
+fn env_usize(name: &str) -> Option<usize> {
+    std::env::var(name).ok().and_then(|s| s.parse().ok())
+}
+
+fn explore_pass(dag: Dag, profile: u8, p: &Pass, opts: Opts) -> PassResult {
+    let t0 = std::time::Instant::now();
+    // Depth selection (iterated bounds): a cheap counting search without oracles finds the largest
+    // depth whose complete search fits the state budget. When the counting search stops on the
+    // budget while expanding depth k, every state of depth <= k has been discovered and there are
+    // fewer than `budget` of them.
+    let counting = Model::new(dag, profile, p.inits.clone(), PLAIN, None);
+    let (cs, _) = bfs(&counting, vec![St::Root], &Limits { max_depth: p.depth_max + 1, max_states: p.budget, max_wall_s: 1e9 }, 1);
+    // `per_depth` has one entry per depth at which a state was taken off the queue (root = 0).
+    // Root is depth 0 and the initial states depth 1, so a total depth t is t - 1 events. If the
+    // budget stopped the search on the FIRST state taken at depth t, the states of depth <= t
+    // already reach the budget and the complete depth within budget is t - 1.
+    let depth = if cs.capped.is_some() {
+        let t = cs.per_depth.len().saturating_sub(1);
+        let t = if cs.per_depth.get(t).copied() == Some(1) { t.saturating_sub(1) } else { t };
+        t.saturating_sub(1)
+    } else {
+        p.depth_max
+    };
+    let seen = RefCell::new(HashSet::new());
+    let m = Model::new(dag, profile, p.inits.clone(), opts, Some(&seen));
+    // +1: the first event of every history is the choice of the initial state. The caps below are
+    // safety nets only (the counting search has established the size).
+    let lim = Limits { max_depth: depth + 1, max_states: p.budget.saturating_mul(2), max_wall_s: p.max_wall };
+    let (stats, cex) = bfs(&m, vec![St::Root], &lim, 400);
+    let cex = cex
+        .into_iter()
+        .map(|c| {
+            let (k, msg) = Viol::decode(&c.msg);
+            (k, msg, c.history)
+        })
+        .collect();
+    PassResult {
+        dag,
+        profile,
+        pass: p.name,
+        depth_max: p.depth_max,
+        depth,
+        budget: p.budget,
+        n_inits: p.inits.len(),
+        states: stats.states,
+        transitions: stats.transitions,
+        per_depth: stats.per_depth,
+        capped: stats.capped,
+        cex,
+        counters: m.counters.into_inner(),
+        wall: t0.elapsed().as_secs_f64(),
+    }
+}
+
+fn history_case(dag: Dag, profile: u8, every_height: bool, history: &[Op]) -> Value {
+    json!({"dag": dag, "profile": profile, "profile_name": PROFILES[profile as usize].name, "probe_every_height": every_height, "history": history})
+}
+
+/// Re-run one operation history from the root with every check on.
+fn replay_history(case: &Value) -> Result<(), String> {
+    let dag: Dag = serde_json::from_value(case["dag"].clone()).map_err(|e| format!("bad case: {e}"))?;
+    let profile = case["profile"].as_u64().ok_or("bad case: profile")? as u8;
+    let history: Vec<Op> = serde_json::from_value(case["history"].clone()).map_err(|e| format!("bad case: {e}"))?;
+    let opts = Opts { differential: true, probe: true, persist: Persist::Full, probe_every_height: case["probe_every_height"].as_bool().unwrap_or(true) };
+    let m = Model::new(dag, profile, vec![], opts, None);
+    let mut s = St::Root;
+    for (n, op) in history.iter().enumerate() {
+        let next = m.step(&s, op).map_err(|e| {
+            let (k, msg) = Viol::decode(&e);
+            format!("[{k}] at event {} {:?}: {msg}", n + 1, op)
+        })?;
+        let Some(next) = next else { return Err("machinery: event produced no state".into()) };
+        m.check(&next).map_err(|e| {
+            let (k, msg) = Viol::decode(&e);
+            format!("[{k}] in the state after event {} {:?}: {msg}", n + 1, op)
+        })?;
+        s = next;
+    }
+    Ok(())
+}
+
+pub fn replay(kind: &str, case: &Value) -> Result<(), String> {
+    persist::configure_sqlite();
+    match kind {
+        "history" => replay_history(case),
+        "lattice" => {
+            let p: persist::Point = serde_json::from_value(case.clone()).map_err(|e| format!("bad case: {e}"))?;
+            persist::check_point(&p).map(|_| ()).map_err(|v| format!("[{}] {}", v.key, v.msg))
+        }
+        "guard" => persist::check_commit_guard(case["status"].as_u64().unwrap_or(0) as u8).map(|_| ()).map_err(|v| format!("[{}] {}", v.key, v.msg)),
+        "conformance" => persist::conformance_values(case["n"].as_u64().unwrap_or(0) as usize).map(|_| ()).map_err(|v| format!("[{}] {}", v.key, v.msg)),
+        _ => Err(format!("unknown replay kind {kind}")),
+    }
+}
+
+/// Deep-pass initial states: every transaction Signed (k = 1 + 5 + 25), and the same with the
+/// first transaction still awaiting its external signature.
+const DEEP_INITS: [u8; 2] = [31, 30];
+
+pub fn run(args: &Args) -> i32 {
+    persist::configure_sqlite();
+    let run = Run::new(args, "model_checking");
+    let quick = args.tier == Tier::Quick;
+    run.set_rule(
+        "states are distinct by the full Debug rendering of the real MigrationState plus the chain environment (tip, on-chain heights, mempool, \
+         unrecorded broadcasts, events since terminal); a transition is one event executed on the real implementation; lattice cases are \
+         distinct by (status, tx state, mark, failure report, lock, kind, plan shape)",
+    );
+    run.assume("oracle reading: 'terminal statuses are never left' follows the documentation of MigrationStatus::Complete / truncate_to_height: Complete is chain-derived and reverts to InProgress when a rollback un-mines one of its transactions; every other exit from a terminal status is a violation");
+    run.assume("a consumer may record an acknowledged broadcast late (after other events, including the scan having seen the transaction mined); it never records a broadcast for a transaction that was not handed out and acknowledged");
+    run.assume("the chain beyond the wallet's scanned tip is invisible to the engine, so the environment keeps chain tip = scanned tip and models the wallet being behind by the estimate lead of the dueness targets (0 or 2 blocks)");
+    run.assume("Rebuild is observed as a report only: executing it needs spend authority and real transaction construction, which are outside this check's alphabet; a consumer never stores a proof late or twice; mining is derived by advance_migration from the store (the documented driver shape), the consumer does not call mark_mined");
+    run.assume("per advance_migration call at most one transaction's oracle answer deviates from the default (marks accumulate over calls); deviating answers are explored only for transactions the engine actually asks about in that call (for every other victim the call is identical by construction) and only at lead 0");
+    run.assume("the RNG passed to advance_migration is a script owned by the explorer (anchor age 1 or 2 on the overdue-shift redraw); other draws are not explored");
+    run.assume("liveness probe: 'reported' = the drive API returns a step other than Waiting/Complete, or transaction_statuses shows Unsatisfiable/Expired/AwaitingReevaluation; waiting on an in-flight unexpired transaction or on an external signature is not a silent hold; a Waiting whose outlook names a later height is followed to that height");
+    run.assume(&format!("the explored space: event sequences of the stated depth in which at most {} events follow the migration reaching a terminal status (every event is still executed and checked from every terminal state that is expanded)", model::TERM_FOLLOW));
+
+    // ---------------------------------------------------------------- lifecycle exploration
+    let profiles: Vec<u8> = match std::env::var("C18_PROFILES").ok() {
+        Some(s) => s.split(',').filter_map(|x| x.parse().ok()).collect(),
+        None => (0..PROFILES.len() as u8).collect(),
+    };
+    let dags: Vec<Dag> = match std::env::var("C18_DAGS").ok() {
+        Some(s) => s.split(',').filter_map(|x| x.parse::<usize>().ok()).map(|i| DAGS[i]).collect(),
+        None => DAGS.to_vec(),
+    };
+    let deep_depth = env_usize("C18_DEEP").unwrap_or(args.tier.pick(8, 12));
+    let broad_depth = env_usize("C18_BROAD").unwrap_or(args.tier.pick(3, 5));
+    let budget = env_usize("C18_BUDGET").map(|x| x as u64).unwrap_or(args.tier.pick(50_000, 800_000));
+    let max_wall = env_usize("C18_MAX_WALL").map(|x| x as f64).unwrap_or(args.tier.pick(45.0, 480.0));
+    let passes = vec![
+        Pass { name: "deep", inits: DEEP_INITS.to_vec(), depth_max: deep_depth, budget, max_wall },
+        Pass { name: "broad", inits: (0..125u8).collect(), depth_max: broad_depth, budget, max_wall },
+    ];
+    let persist_mode = match std::env::var("C18_PERSIST").ok().as_deref() {
+        Some("off") => Persist::Off,
+        Some("full") => Persist::Full,
+        Some("class") => Persist::ShapeClass,
+        _ => args.tier.pick(Persist::ShapeClass, Persist::Full),
+    };
+    let opts = Opts { differential: true, probe: true, persist: persist_mode, probe_every_height: !quick };
+    let groups: Vec<(Dag, u8)> = dags.iter().flat_map(|d| profiles.iter().map(move |p| (*d, *p))).collect();
+    let tasks: Vec<(Dag, u8, Pass)> = groups.iter().flat_map(|(d, p)| passes.iter().map(move |ps| (*d, *p, ps.clone()))).collect();
+    let results: Vec<PassResult> = tasks.par_iter().map(|(d, p, ps)| explore_pass(*d, *p, ps, opts)).collect();
+
+    let mut outcomes: BTreeMap<String, u64> = BTreeMap::new();
+    let mut per_group = Vec::new();
+    let mut best: BTreeMap<String, (usize, usize, String, Value)> = BTreeMap::new();
+    let (mut adv_calls, mut mock_calls, mut probes, mut persists) = (0u64, 0u64, 0u64, 0u64);
+    for (gi, r) in results.iter().enumerate() {
+        run.add_graph(r.states, r.transitions, r.transitions);
+        run.eval_distinct(r.states);
+        for (k, n) in &r.counters.outcomes {
+            *outcomes.entry(k.clone()).or_insert(0) += n;
+        }
+        adv_calls += r.counters.advance_calls;
+        mock_calls += r.counters.mock_calls;
+        probes += r.counters.probe_runs;
+        persists += r.counters.persist_runs;
+        if let Some(c) = &r.capped {
+            run.cap_hit(&format!("{:?}/{}/{}: {c}; states {}, states expanded per depth {:?}", r.dag, PROFILES[r.profile as usize].name, r.pass, r.states, r.per_depth));
+        }
+        per_group.push(json!({
+            "dag": r.dag, "profile": PROFILES[r.profile as usize].name, "pass": r.pass, "initial_states": r.n_inits,
+            "depth_events": r.depth, "depth_attempted": r.depth_max, "state_budget": r.budget,
+            "states": r.states, "transitions": r.transitions, "states_expanded_per_depth": r.per_depth, "capped": r.capped, "wall_s": r.wall,
+        }));
+        for (k, msg, h) in &r.cex {
+            if k == "machinery" {
+                mc_core::machinery_error(&format!("C18: {msg} (history {h:?})"));
+            }
+            let better = match best.get(k) {
+                None => true,
+                Some((len, gidx, _, _)) => (h.len(), gi) < (*len, *gidx),
+            };
+            if better {
+                best.insert(k.clone(), (h.len(), gi, msg.clone(), history_case(r.dag, r.profile, opts.probe_every_height, h)));
+            }
+        }
+    }
+    for (k, (_, _, msg, case)) in best {
+        run.fail("history", k, msg, case);
+    }
+    run.section(
+        "lifecycle",
+        json!({
+            "depth_rule": "per pass, the largest depth <= depth_attempted whose complete breadth-first search has fewer than state_budget states (found by a counting search over the same transition system)",
+            "passes": per_group,
+            "advance_migration_calls_on_scripted_store": adv_calls,
+            "advance_migration_calls_on_mockbackend": mock_calls,
+            "liveness_probes": probes,
+            "sqlite_roundtrips_of_explored_states": persists,
+            "explored_state_persistence": format!("{persist_mode:?}"),
+            "terminal_follow_events": model::TERM_FOLLOW,
+            "heights": {"initial_tip": model::T0, "anchor_grid": model::INTERVAL, "tip_max": model::TIP_MAX, "rollback_floor": model::FLOOR,
+                        "profiles": PROFILES.iter().map(|p| json!({"name": p.name, "scheduled": p.sched, "expiry": p.expiry, "transfer_anchor_boundary": p.boundary})).collect::<Vec<_>>()},
+            "events": ["Advance{lead in {0,2}, oracle in {AllOk, NotYet(i), Spent(i), InputsInvalidated(i), AnchorInvalidated(i)}, anchor age in {1,2}, response}",
+                       "responses: Prove => ProveAll | ProveFirst | Ignore; Broadcast => BroadcastOk | BroadcastOkNotRecorded | BroadcastFail(tip) | BroadcastFail(tip+2) | Ignore; Replan => Supersede | Ignore; others => Ignore",
+                       "RecordLate(i)", "Mine(i)", "Tip{+1 | to next scheduled | past next expiry}", "Rollback(h in {tip-1, tip-2, mined-1})", "Cancel", "Supersede", "ApplySignature(i)"],
+        }),
+    );
+    run.sample(json!({"history_example": history_case(Dag::Chain, 0, !quick, &[
+        Op::Init(31),
+        Op::Advance { lead: 2, oracle: store::Oracle::AllOk, age: 1, resp: model::Resp::ProveAll },
+        Op::Advance { lead: 2, oracle: store::Oracle::AllOk, age: 1, resp: model::Resp::BroadcastOkNotRecorded },
+        Op::Mine(0),
+        Op::Advance { lead: 0, oracle: store::Oracle::AllOk, age: 1, resp: model::Resp::Ignore },
+        Op::RecordLate(0),
+    ])}));
+    let t_lifecycle = run.elapsed();
+
+    // ---------------------------------------------------------------- persistence lattice
+    let plans: Vec<u8> = if quick { vec![0, 3] } else { (0..persist::N_PLANS).collect() };
+    let points = persist::all_points(&plans);
+    // SQLite serialises in-process work on global mutexes; a small pool is as fast as a large one.
+    let pool = rayon::ThreadPoolBuilder::new().num_threads(4).build().unwrap_or_else(|e| mc_core::machinery_error(&format!("C18: thread pool: {e}")));
+    let lat: Vec<(usize, Result<&'static str, Viol>)> = pool.install(|| points.par_iter().enumerate().map(|(i, p)| (i, persist::check_point(p))).collect());
+    run.eval_distinct(points.len() as u64);
+    // One failure per violation key: the first lattice point (in enumeration order) that shows it;
+    // the number of points showing it is part of the message.
+    let mut lat_fail: BTreeMap<String, (usize, String, usize)> = BTreeMap::new();
+    for (i, r) in lat {
+        match r {
+            Ok(o) => *outcomes.entry(o.to_string()).or_insert(0) += 1,
+            Err(v) => {
+                if v.key == "machinery" {
+                    mc_core::machinery_error(&format!("C18 lattice: {}", v.msg));
+                }
+                let e = lat_fail.entry(v.key.clone()).or_insert((i, v.msg.clone(), 0));
+                e.2 += 1;
+                if i < e.0 {
+                    e.0 = i;
+                    e.1 = v.msg.clone();
+                }
+            }
+        }
+    }
+    for (k, (i, msg, n)) in lat_fail {
+        run.fail("lattice", k, format!("{msg} [first of {n} lattice points: {}]", points[i].label()), serde_json::to_value(&points[i]).unwrap());
+    }
+    run.sample(json!({"lattice_point_example": points[points.len() / 2], "label": points[points.len() / 2].label()}));
+    for status in 0..7u8 {
+        run.eval_distinct(1);
+        match persist::check_commit_guard(status) {
+            Ok(o) => *outcomes.entry(o.to_string()).or_insert(0) += 1,
+            Err(v) => {
+                if v.key == "machinery" {
+                    mc_core::machinery_error(&format!("C18 guard: {}", v.msg));
+                }
+                run.fail("guard", v.key, v.msg, json!({"status": status}))
+            }
+        }
+    }
+    let n_conf = args.tier.pick(48, 256);
+    match persist::conformance_values(n_conf) {
+        Ok(n) => *outcomes.entry("conformance-suite-on-generated-state".into()).or_insert(0) += n as u64,
+        Err(v) => run.fail("conformance", v.key, v.msg, json!({"n": n_conf})),
+    }
+    run.section("persistence", json!({"lattice_points": points.len(), "plan_shapes": plans, "commit_guard_statuses": 7, "generated_states_through_conformance_suite": n_conf}));
+    let t_persist = run.elapsed();
+
+    // ---------------------------------------------------------------- second engine
+    if run.failure_count() == 0 {
+        let sr_depth = env_usize("C18_SR_DEPTH").unwrap_or(args.tier.pick(5, 7)).min(deep_depth);
+        let sr_groups: Vec<(Dag, u8)> = if quick { dags.iter().enumerate().map(|(i, d)| (*d, profiles[i % profiles.len()])).collect() } else { groups.clone() };
+        let cmp: Vec<Value> = sr_groups
+            .par_iter()
+            .map(|(d, p)| {
+                let inits = DEEP_INITS.to_vec();
+                let m = Model::new(*d, *p, inits.clone(), PLAIN, None);
+                let (st, _) = bfs(&m, vec![St::Root], &Limits { max_depth: sr_depth + 1, max_states: u64::MAX, max_wall_s: 1e9 }, 1);
+                let c = sr::count(*d, *p, inits, sr_depth + 1);
+                json!({"dag": d, "profile": PROFILES[*p as usize].name, "depth_events": sr_depth, "initial_states": DEEP_INITS,
+                       "bfs_states": st.states, "stateright_unique_states": c.unique_states,
+                       "bfs_transitions": st.transitions, "stateright_generated_minus_init": c.generated - 1, "stateright_max_depth": c.max_depth})
+            })
+            .collect();
+        for c in &cmp {
+            run.require(c["bfs_states"] == c["stateright_unique_states"], &format!("state counts of the two engines differ: {c}"));
+            run.require(c["bfs_transitions"] == c["stateright_generated_minus_init"], &format!("transition counts of the two engines differ: {c}"));
+        }
+        run.section("second_engine", json!({"engine": "stateright 0.31 BFS, 1 thread per model", "comparisons": cmp}));
+    } else {
+        run.section("second_engine", json!({"skipped": "violations present; the primary search does not expand violating states, so counts are not comparable"}));
+    }
+    run.section("phase_wall_s", json!({"lifecycle": t_lifecycle, "persistence": t_persist - t_lifecycle, "second_engine": run.elapsed() - t_persist}));
+
+    // ---------------------------------------------------------------- vacuity guards
+    for (k, n) in &outcomes {
+        run.outcome_n(k, *n);
+    }
+    if run.failure_count() == 0 && std::env::var("C18_DAGS").is_err() && std::env::var("C18_PROFILES").is_err() {
+        for must in [
+            "step:Prove", "step:Broadcast", "step:Rebuild", "step:Replan", "step:Reevaluate", "step:Waiting", "step:Complete",
+            "engine:schedule-shift", "engine:anchor-redrawn", "engine:promote-unrecorded-broadcast", "engine:promote-mined", "engine:report-discharged",
+            "engine:mark-InputsSpent", "engine:mark-InputsInvalidated", "engine:mark-AnchorInvalidated", "engine:mark-Inherited",
+            "consumer:broadcast-ok-not-recorded", "consumer:late-record-on-Mined", "consumer:late-record-on-Proved", "consumer:late-record-on-Broadcast",
+            "chain:rollback-unmines", "status:Complete->InProgress", "reached-terminal:Complete", "reached-terminal:Cancelled", "reached-terminal:Superseded",
+            "probe-end:Waiting", "probe-end:Rebuild", "probe-end:Replan", "targets:estimate-ahead",
+            "lattice:terminal+successor", "lattice:live-replaced-in-place", "guard:refused-live", "guard:admitted-after-terminal",
+        ] {
+            run.require(outcomes.contains_key(must), &format!("outcome '{must}' never observed"));
+        }
+    }
+    run.require(run.outcomes_distinct() >= 12 || run.failure_count() > 0, "vacuous exploration");
+    run.finish(&replay)
 }
